@@ -124,6 +124,9 @@ func runC07(p *core.Prog, r *core.Report) {
 	c07R3(p, r, "C07.R3")
 	c07R4(p, r)
 	c07R5(p, r, "C07.R5")
+	c07R6(p, r)
+	// the same order in an import into a layout: the tag is written last (shared with C09.R10)
+	importOrderRule(p, r, "C07.R7")
 }
 
 // pathDepth counts the path elements of a path expression built with Join, + and Sprintf: one per
@@ -891,4 +894,73 @@ func c07R4(p *core.Prog, r *core.Report) {
 		}
 	}
 	_ = n
+}
+
+// c07R6: the marker file and the index are two files, and a crash can fall between them. Either the
+// index is in place before the marker says "this is a layout", or the code that adds to the index
+// tolerates a layout that has its marker and no readable index yet.
+func c07R6(p *core.Prog, r *core.Report) {
+	const rule = "C07.R6"
+	r.Rule(rule, "marker without index is recoverable: either every function that creates the layout marker (oci-layout) writes the index before it, or the index updater still reaches its index write from the failure edge of reading the index (a crash between the two renames must not leave a layout that every later write refuses)", 1)
+	upd := p.Method(ocidirRel, "OCIDir", "updateIndex")
+	rd := p.Method(ocidirRel, "OCIDir", "readIndex")
+	wr := p.Method(ocidirRel, "OCIDir", "writeIndex")
+	if upd == nil || rd == nil || wr == nil {
+		r.MissingAnchor(rule, ocidirRel+" updateIndex / readIndex / writeIndex")
+		return
+	}
+	// (B) the updater recovers
+	recovers := false
+	for _, c := range core.CallsTo(upd, func(f *types.Func) bool { return funcObjIs(p, f, rd) }) {
+		call, ok := c.(*ssa.Call)
+		if !ok {
+			continue
+		}
+		for _, e := range errEdgesOf(upd, call) {
+			for in := range (core.Reach{}).FromEdge(e[0], e[1]) {
+				if cc, ok := in.(ssa.CallInstruction); ok && core.CalleeFn(cc) == wr {
+					recovers = true
+				}
+			}
+		}
+	}
+	// (A) index before marker in every creator of the marker
+	markerWriters := map[*ssa.Function]bool{}
+	for _, fn := range pkgFuncs(p, ocidirRel) {
+		for _, c := range core.CallsTo(fn, func(f *types.Func) bool { return isOS(f, "Rename") }) {
+			for _, l := range pathLeaves(core.CallArg(c, 1)) {
+				if sv, ok := core.ConstString(l); ok && sv == "oci-layout" {
+					markerWriters[fn] = true
+				}
+			}
+		}
+	}
+	indexFirst, creators := true, 0
+	for _, fn := range pkgFuncs(p, ocidirRel) {
+		core.Calls(fn, func(c ssa.CallInstruction) {
+			g := core.CalleeFn(c)
+			if g == nil || !markerWriters[g] || markerWriters[fn] {
+				return
+			}
+			creators++
+			dominated := false
+			core.Calls(fn, func(c2 ssa.CallInstruction) {
+				if core.CalleeFn(c2) == wr && core.DominatesInstr(c2.(ssa.Instruction), c.(ssa.Instruction)) {
+					dominated = true
+				}
+			})
+			if !dominated {
+				indexFirst = false
+			}
+		})
+	}
+	if creators == 0 {
+		indexFirst = false
+	}
+	r.Check(recovers || indexFirst, rule, p.FuncName(upd), "marker without index", p.Pos(upd.Pos()),
+		"the marker is created before any index exists and the index updater gives up when it cannot read the index: a crash between the two renames leaves a directory that is taken for a layout and that no later write can complete")
+}
+
+func funcObjIs(p *core.Prog, f *types.Func, fn *ssa.Function) bool {
+	return f != nil && fn != nil && p.SSA.FuncValue(f) == fn
 }
